@@ -77,7 +77,8 @@ def make_wiki(cfg):
     if cfg["missing"]:
         articles.insert(1 if articles else 0, ("Missing page", None))
     contributors = {"Alpha": {"named": ["Ann", "Bob", "Cid", "Dee"] if cfg.get("many") else ["Ann", "Bob"], "bots": ["CleanupBot"], "anon": 3},
-                    "Beta": {"named": ["Cy"], "bots": [], "anon": 0},
+                    # (with `two`: a page edited by logged-out users only - the API then sends no "contributors" key at all)
+                    "Beta": {"named": ["Cy"], "bots": [], "anon": 0} if cfg["limit"] != 1 else {"named": [], "bots": [], "anon": 4},
                     "File:Pic one.png": {"named": ["Uploader"], "bots": ["ImageBot"], "anon": 1}}
     return SynthWiki(pages, images, contributors), articles
 
